@@ -17,6 +17,16 @@ from vlib.syslevel import build_prod, run_script, per_call, call_line, run_many
 ENVIRON = [b"X=from-environ", b"NL=line one\nline two\r\nline three\t.", b"PATH=/bin"]
 
 
+def all_ds_format(run):
+    """a message format naming every data source of the registry (the library then performs every lookup it is able to perform)"""
+    import re
+    src = run.src("src/datasourceregistry.c")
+    m = re.search(r"snoopy_datasourceregistry_names\s*\[\s*\]\s*=\s*\{(.*?)\};", src, re.S)
+    names = re.findall(r'"(\w+)"', m.group(1)) if m else ["username", "eusername", "group", "egroup", "login", "tty_username"]
+    arg = {"env": ":X", "snoopy_literal": ":lit"}
+    return " ".join("%%{%s%s}" % (n, arg.get(n, "")) for n in names if n)
+
+
 def configs(run, d):
     out = "@D@/out.log"
     sock = "@D@/s.sock"
@@ -39,6 +49,10 @@ def configs(run, d):
         ("garbage", b"\xff\xfe[snoopy\nmessage_format = %{\noutput = nosuch:zzz\n= = =\n"),
         # both limits at their maximum, calls issued from a thread with a 192 KiB stack: the library's stack use must not grow with the limits
         ("biglimits-smallstack", base + b"log_message_max_length = 1048575\ndatasource_message_max_length = 1048575\noutput = file:" + out.encode() + b"\nmessage_format = \"%{cmdline} %{env_all}\"\n"),
+        # every data source in the format, and the caller's strings inside libc's static result buffers (getpwuid/getgrgid/getpwnam)
+        ("allds-libcbuf", base + b"output = file:" + out.encode() + b"\nmessage_format = \"" + all_ds_format(run).encode() + b"\"\n"),
+        # the exec-calling child's parent carries a command name that looks like the tail of a stat line: ") S <its own pid>"
+        ("spawns-statlike-comm", base + b"output = file:" + out.encode() + b"\nfilter_chain = \"exclude_spawns_of:nosuchprogram,sshd\"\n"),
         ("smallmsg", base + b"log_message_max_length = 255\ndatasource_message_max_length = 255\noutput = file:" + out.encode() + b"\n"),
     ]
 
@@ -72,6 +86,56 @@ def outcomes(rng, tier):
     outs = [(0, -1, e) for e in (errs if tier == "thorough" else rng.sample(errs, 12) + [errno_mod.ENOENT, errno_mod.EACCES, errno_mod.E2BIG])]
     outs += [(0, 0, 0), (0, 7, 0), (0, -1, 0), (1, 0, 0), (1, 0, 0)]
     return outs
+
+
+CTOR_ORDERS = (("snoopy-first", "{lib} {ctor} {rec}"), ("ctorlib-first", "{ctor} {lib} {rec}"))
+
+
+def ctor_exec_once(run, lib, order, tag):
+    import subprocess
+    from vlib.syslevel import RECORDER, parse_rec
+    d = os.path.join(run.scratch, "c01-ctor-" + tag)
+    os.makedirs(d, exist_ok=True)
+    rec = os.path.join(d, "rec.txt")
+    if os.path.exists(rec):
+        os.unlink(rec)
+    ctor = os.path.join(os.path.dirname(RECORDER), "libctorexec.so")
+    env = {"PATH": "/usr/bin:/bin", "LD_PRELOAD": order.format(lib=lib, ctor=ctor, rec=RECORDER), "VERIF_CTOR_REC": rec}
+    try:
+        p = subprocess.run(["/bin/true"], env=env, cwd=d, timeout=60, stdin=subprocess.DEVNULL, stdout=subprocess.PIPE, stderr=subprocess.PIPE)
+        status = p.returncode
+    except subprocess.TimeoutExpired:
+        status = "timeout"
+    calls = per_call(parse_rec(rec)) if os.path.exists(rec) else {}
+    why = None
+    exp = {0: ("execve", errno_mod.EACCES, hexlist([b"CTOR=1", b"NL=a\nb"])), 1: ("execv", errno_mod.ENOENT, None)}
+    if status != 0:
+        why = "process started with the library preloaded ended with status %s" % status
+    for i in (0, 1):
+        if why:
+            break
+        c = calls.get(i)
+        api, err, envx = exp[i]
+        if c is None or len(c["real"]) != 1:
+            why = "%s issued from a constructor: real function reached %s times" % (api, 0 if c is None else len(c["real"]))
+        else:
+            r = c["real"][0]
+            if r[2] != api or r[3] != "1" or r[4] != hexs(b"/ctor/exec/path") or r[5] != hexlist([b"ctor-argv0", b"second arg", b""]) or (envx is not None and r[6] != envx):
+                why = "%s issued from a constructor: arguments differ at the real call" % api
+            elif c["ret"] is None or c["ret"][2] != "-1" or c["ret"][3] != str(err) or c["ret"][4] != "1":
+                why = "%s issued from a constructor: caller saw %s, scripted (-1, errno %d)" % (api, c["ret"], err)
+    return why, status, calls
+
+
+def ctor_exec(run, lib):
+    n = 0
+    for tag, order in CTOR_ORDERS:
+        why, status, calls = ctor_exec_once(run, lib, order, tag)
+        n += 2
+        if why:
+            run.violation("ctor-exec:%s" % tag, "spec_violation", "%s (LD_PRELOAD order %s)" % (why, tag),
+                          {"failing_input": {"scenario": "exec from a preloaded library's constructor", "order": tag, "LD_PRELOAD": order}, "ctor_order": tag, "stream": "c01-ctor"})
+    return n
 
 
 def check(run):
@@ -109,9 +173,13 @@ def check(run):
                 k += 1
         if name.endswith("smallstack"):
             script.insert(7, "stack\t192")
+        if name.startswith("spawns-statlike"):
+            script.insert(7, "comm\t" + hexs(b") S @PID@"))
+        if name.endswith("libcbuf"):
+            script.insert(7, "libcbuf\t1")
         if ci % 4 == 1:
             script.insert(7, "env\t~")    # environ == NULL in this process
-        res = run_script(run, lib, script, "c01-%d" % ci, timeout=300)
+        res = run_script(run, lib, script, "c01-%d" % ci, timeout=60 if name.startswith("spawns-") else 300)
         return (ci, name, plan, res, script)
 
     results = run_many(job, jobs, workers=8)
@@ -163,11 +231,14 @@ def check(run):
                 break
         if len(sample_cases) < 4 and plan:
             sample_cases.append({"config": name, "call": script[8][:200]})
+    # exec calls issued from another library's constructor, before main() and (first order) before libsnoopy's own constructors
+    nctor = ctor_exec(run, lib)
+    ncalls += nctor
     if not ok and not run.violations:
         run.violation("proof:%s" % failed, "proof", "proof obligation no longer checks: %s\n%s" % (failed, log[-1500:]), {"theorem": failed, "coq_log": log[-3000:]})
     run.coverage.update({
         "evaluations": ncalls, "distinct_nontrivial": len(nontrivial),
-        "rule": "scripted calls: %d configurations x %d argument shapes (NULL/empty vectors, empty/8-bit/100kB strings, thousands of entries, format-like text) x outcomes "
+        "rule": "2 LD_PRELOAD orders x 2 exec calls issued from another preloaded library's constructor; scripted calls: %d configurations x %d argument shapes (NULL/empty vectors, empty/8-bit/100kB strings, thousands of entries, format-like text) x outcomes "
                 "(scripted ret/errno incl. all errno values in thorough, simulated success), execve/execv alternating, one process per configuration; "
                 "distinct = (config, api, path, mode, ret, errno)" % (len(jobs), len(shp)),
         "samples": sample_cases,
@@ -186,6 +257,12 @@ def replay(run, path):
     run.snapshot()
     lib = build_prod(run)
     script = rep.get("script")
+    if rep.get("ctor_order"):
+        why, status, calls = ctor_exec_once(run, lib, dict(CTOR_ORDERS)[rep["ctor_order"]], "replay")
+        print("status:", status, json.dumps(calls, indent=1)[:2000])
+        print("REPRODUCED: " + why if why else "not reproduced: both constructor-time calls reached the real function once and returned its result")
+        run.cleanup()
+        return 1 if why else 0
     if not script:
         print("replay file has no script (proof-only violation): re-run ./check C01 quick")
         run.cleanup()
